@@ -303,6 +303,19 @@ pub fn gen_snap(seed: u64, nlevels: u64, subs_per_level: u64, exhaustive: bool, 
         for _ in 0..subs_per_level {
             out.push(format!("pkg.fault ins {} {}", r.below(n + 1), *r.pick(&[b'0' as u64, b'1' as u64, b'"' as u64, b',' as u64, b'}' as u64, b' ' as u64, b'a' as u64, b'\\' as u64])));
         }
+        // an honest package (checksum computed by the library over the content it carries) whose order vector
+        // holds one order twice / is doubled: every road must still decide alike and return
+        if !snap.orders.is_empty() {
+            for k in 0..3usize {
+                let mut s2 = lvl.snapshot();
+                let e = s2.orders[r.below(s2.orders.len() as u64) as usize].clone();
+                match k { 0 => s2.orders.push(e), 1 => s2.orders.insert(0, e), _ => { let c = s2.orders.clone(); s2.orders.extend(c); } }
+                if let Ok(t) = pricelevel::PriceLevelSnapshotPackage::new(s2).and_then(|p| p.to_json()) {
+                    header(out, &mut case);
+                    out.push(format!("pkg.honest {}", crate::codec::hex(&t)));
+                }
+            }
+        }
         // structural edits and pairs of faults
         header(out, &mut case);
         for k in ["swap", "drop", "dup", "num", "version", "checksum", "resum", "price", "agg", "field", "key"] {
